@@ -931,12 +931,150 @@ main(int argc, char *argv[])
             fprintf(vt_out, "}\n");
             free(w);
             free(ph);
+        } else if (!strcmp(cmd, "call")) {
+            /* call <fn> [args]: one public API call whose only observation is its return class; used by the
+             * API-history tours (C09).  Classes: ok (0), err (<0), null, obj, n (a non-negative count) */
+            char fn[64], cls[16] = "ok";
+            long x = 0, y = 0;
+            int n = sscanf(line, "%*s %63s %ld %ld", fn, &x, &y);
+            if (n < 1)
+                return 3;
+            if (!strcmp(fn, "segiter")) { /* x: 0 walk to the end, 1 read first then free, 2 advance once then free */
+                seg_iter_t *it = decoder_seg_iter(d);
+                strcpy(cls, it ? "obj" : "null");
+                if (it && x == 0)
+                    while (it) {
+                        int sf, ef;
+                        (void)seg_iter_word(it);
+                        seg_iter_frames(it, &sf, &ef);
+                        (void)seg_iter_prob(it, NULL, NULL);
+                        it = seg_iter_next(it);
+                    }
+                else if (it && x == 1) {
+                    (void)seg_iter_word(it);
+                    seg_iter_free(it);
+                } else if (it) {
+                    it = seg_iter_next(it);
+                    if (it)
+                        seg_iter_free(it);
+                }
+            } else if (!strcmp(fn, "hyp")) {
+                int32 sc;
+                const char *h = decoder_hyp(d, &sc);
+                const char *h2 = decoder_hyp(d, NULL);
+                strcpy(cls, h ? "obj" : "null");
+                if ((h == NULL) != (h2 == NULL))
+                    strcpy(cls, "flip");
+                (void)decoder_prob(d);
+            } else if (!strcmp(fn, "nbestiter")) { /* x: how many to read, y: 1 = also take and abandon a seg iterator */
+                hyp_iter_t *nb = decoder_nbest(d);
+                int k = 0;
+                strcpy(cls, nb ? "obj" : "null");
+                while (nb) {
+                    int32 sc;
+                    (void)hyp_iter_hyp(nb, &sc);
+                    if (y) {
+                        seg_iter_t *sg = hyp_iter_seg(nb);
+                        if (sg)
+                            seg_iter_free(sg);
+                    }
+                    if (++k >= x) {
+                        hyp_iter_free(nb);
+                        break;
+                    }
+                    nb = hyp_iter_next(nb);
+                }
+            } else if (!strcmp(fn, "lattice")) {
+                lattice_t *dag = decoder_lattice(d);
+                strcpy(cls, dag ? "obj" : "null");
+                if (dag && x) { /* keep it beyond the decoder's own reference, use it, release it */
+                    latnode_iter_t *ni;
+                    lattice_retain(dag);
+                    for (ni = ps_latnode_iter(dag); ni; ni = ps_latnode_iter_next(ni)) {
+                        latlink_iter_t *li = ps_latnode_exits(ps_latnode_iter_node(ni));
+                        if (li && y)
+                            ps_latlink_iter_free(li); /* abandon */
+                        else
+                            for (; li; li = ps_latlink_iter_next(li))
+                                (void)ps_latlink_iter_link(li);
+                        (void)ps_latnode_word(dag, ps_latnode_iter_node(ni));
+                    }
+                    if (lattice_bestpath(dag, 0.05f))
+                        (void)lattice_posterior(dag, 0.05f);
+                    lattice_free(dag);
+                }
+            } else if (!strcmp(fn, "alignwalk")) { /* x: 0 full walk, 1 abandon iterators half way */
+                alignment_t *al = decoder_alignment(d);
+                strcpy(cls, al ? "obj" : "null");
+                if (al) {
+                    alignment_iter_t *w = alignment_words(al);
+                    while (w) {
+                        alignment_iter_t *p = alignment_iter_children(w);
+                        (void)alignment_iter_name(w);
+                        while (p) {
+                            alignment_iter_t *st = alignment_iter_children(p);
+                            (void)alignment_iter_name(p);
+                            if (st && x) {
+                                alignment_iter_free(st);
+                                st = NULL;
+                            }
+                            while (st) {
+                                (void)alignment_iter_name(st);
+                                st = alignment_iter_next(st);
+                            }
+                            if (x) {
+                                alignment_iter_free(p);
+                                break;
+                            }
+                            p = alignment_iter_next(p);
+                        }
+                        if (x) {
+                            alignment_iter_free(w);
+                            break;
+                        }
+                        w = alignment_iter_next(w);
+                    }
+                }
+            } else if (!strcmp(fn, "json")) {
+                const char *js = decoder_result_json(d, 0.5, (int)x);
+                strcpy(cls, js ? "obj" : "null");
+                if (js && (js[0] != '{' || js[strlen(js) - 1] != '\n'))
+                    strcpy(cls, "bad");
+            } else if (!strcmp(fn, "nframes")) {
+                int nfr = decoder_n_frames(d);
+                double a1, a2, a3;
+                decoder_utt_time(d, &a1, &a2, &a3);
+                decoder_all_time(d, &a1, &a2, &a3);
+                strcpy(cls, nfr >= 0 ? "n" : "err");
+            } else if (!strcmp(fn, "getcmn")) {
+                strcpy(cls, decoder_get_cmn(d, (int)x) ? "obj" : "null");
+            } else if (!strcmp(fn, "retain")) {
+                strcpy(cls, decoder_retain(d) ? "obj" : "null");
+            } else if (!strcmp(fn, "release")) { /* drop the extra reference taken by retain */
+                int rc = decoder_free(d);
+                snprintf(cls, sizeof(cls), "%s", rc >= 1 ? "n" : "zero");
+            } else if (!strcmp(fn, "reinit")) {
+                int rc = decoder_reinit(d, NULL);
+                strcpy(cls, rc == 0 ? "ok" : "err");
+            } else if (!strcmp(fn, "lookup")) { /* x: 0 known word, 1 unknown, 2 empty */
+                char *pr = decoder_lookup_word(d, x == 0 ? "forward" : x == 1 ? "nosuchword" : "");
+                strcpy(cls, pr ? "obj" : "null");
+                ckd_free(pr);
+            } else if (!strcmp(fn, "config")) {
+                config_t *c = decoder_config(d);
+                (void)decoder_logmath(d);
+                (void)decoder_fe(d);
+                (void)decoder_feat(d);
+                strcpy(cls, c && config_str(c, "hmm") ? "obj" : "null");
+            } else
+                return 3;
+            fprintf(vt_out, "{\"e\":\"Call\",\"fn\":\"%s\",\"x\":%ld,\"y\":%ld,\"cls\":\"%s\"}\n", fn, x, y, cls);
         } else if (!strcmp(cmd, "cmn")) {
             char *s;
             if (sscanf(line, "%*s %s", arg) != 1)
                 return 3;
             s = vt_unhex(arg, NULL);
-            decoder_set_cmn(d, s);
+            fprintf(vt_out, "{\"e\":\"SetCmn\",\"ret\":%d}\n", decoder_set_cmn(d, s));
             free(s);
         } else if (!strcmp(cmd, "getcmn")) {
             fprintf(vt_out, "{\"e\":\"Cmn\",\"v\":");
